@@ -11,7 +11,7 @@ from sx.harness import exc_site
 
 PROPERTY = "C13"
 LEVEL = "model_checking"
-OPTIONS = {"quick": {"max_paths": 100000, "unit_budget_s": 600}, "thorough": {"max_paths": 1000000, "unit_budget_s": 3000}}
+OPTIONS = {"quick": {"max_paths": 100000, "unit_budget_s": 900}, "thorough": {"max_paths": 1000000, "unit_budget_s": 3000}}
 BOUNDS = {
     "quick": {"values": "0..3 symbolic octets per assertion value / substring component (all 256 values each)", "attributes": "every RFC 4512 attribute description of length 1..3 (symbolic, incl. options) in one leaf at a time, a symbolic letter elsewhere", "trees": "every leaf kind alone; and/or/not over leaves; and/or with members of the same kind (equal members included); depth-3 mixes; not^40 / and-or^40 chains", "substrings": "every presence combination of initial / 0..2 any / final (at least one component, components non-empty)"},
     "thorough": {"values": "0..4 octets", "attributes": "length 1..5", "trees": "quick + every leaf under and/not, fan-out 2 of every leaf pair subset"},
